@@ -153,6 +153,58 @@ example : (∀ c ∈ ([52, 32, 49, 0, 52, 97] : Bytes), isHEX c = true ∨ isSPC
   simp at hc
   rcases hc with rfl | rfl | rfl | rfl | rfl | rfl <;> decide +kernel
 
+/-! ### literal strings -/
+
+/-- Every spelling `(` + items + `)` — raw bytes, the escapes of Table 3, 1–3 digit octal escapes
+    (overflow above \377 ignored), backslash + LF / CR / CR LF continuations, an ignored backslash
+    before any other byte, raw balanced parentheses to any depth — reads as exactly the bytes the
+    items denote, at the position of the `(`, and leaves the tokenizer in the main scanner.
+    `chainOK`: a 1–2 digit octal escape is not followed by an octal digit and backslash-CR not by LF
+    (otherwise the spelling means something else). -/
+theorem C01_string_token (st : St) (hm : st.mode = .main) (items : List StrItem) (pos : Nat)
+    (hok : ∀ i ∈ items, i.ok) (hch : chainOK items) (hbal : depthAfter 0 items = some 0) :
+    ∃ st', st'.mode = .main ∧
+      foldBytes st (40 :: renderStr items ++ [41]) pos = (st', [(pos, Token.str (strValue items))]) := by
+  obtain ⟨s1, hs1, hf1⟩ := main_string_start st pos hm
+  have hn1 : NextOK s1 ((renderStr items ++ [41]).headD 41) := nextOK_string _ _ hs1.1
+  obtain ⟨s2, hp2, hn2, hf2⟩ := str_items_fold items [] 0 pos s1 (pos + 1) 0 (settled_pending hs1) hn1 hok hch hbal
+  obtain ⟨s3, hm3, hf3⟩ := str_end _ pos s2 (pos + 1 + (renderStr items).length) hp2 hn2
+  refine ⟨s3, hm3, ?_⟩
+  simp only [List.cons_append, foldBytes, hf1, List.nil_append]
+  rw [foldBytes_append, hf2]
+  simp only [foldBytes, hf3]
+  simp
+
+theorem C01_string_token_eof (items : List StrItem)
+    (hok : ∀ i ∈ items, i.ok) (hch : chainOK items) (hbal : depthAfter 0 items = some 0) :
+    specLex (40 :: renderStr items ++ [41]) = [(0, Token.str (strValue items))] := by
+  have hsp : isNONSPC 10 = false := by decide +kernel
+  obtain ⟨st', hm, h⟩ := C01_string_token St.init rfl items 0 hok hch hbal
+  unfold specLex
+  rw [foldBytes_append, h]
+  simp [foldBytes, stepByte, stepN, searchClass, hsp, hm]
+
+/-- …and therefore from the buffered tokenizer at every buffer size (a continuation or an escape may
+    straddle any buffer boundary). -/
+theorem C01_string_token_buffered (b : Nat) (hb : 1 ≤ b) (items : List StrItem)
+    (hok : ∀ i ∈ items, i.ok) (hch : chainOK items) (hbal : depthAfter 0 items = some 0) :
+    run b (40 :: renderStr items ++ [41]) = some [(0, Token.str (strValue items))] := by
+  rw [C14.C14_run_eq_spec b hb, C01_string_token_eof items hok hch hbal]
+
+/-- Non-vacuity: `(a\<CR><LF>(\5)\053\n\Z)` = `a(<05>)+<LF>Z`: continuation, raw balanced parentheses, a short octal
+    escape followed by `)`, a three-digit one, an escape letter, an ignored backslash. -/
+example :
+    let items := [StrItem.raw 97, .cont .crlf, .popen, .oct1 53, .pclose, .oct3 48 53 51, .esc 110, .ign 90]
+    (∀ i ∈ items, i.ok) ∧ chainOK items ∧ depthAfter 0 items = some 0 ∧
+      renderStr items = [97, 92, 13, 10, 40, 92, 53, 41, 92, 48, 53, 51, 92, 110, 92, 90] ∧
+      strValue items = [97, 40, 5, 41, 43, 10, 90] := by
+  refine ⟨?_, ?_, by decide, by decide, by decide +kernel⟩
+  · intro i hi
+    simp at hi
+    rcases hi with rfl | rfl | rfl | rfl | rfl | rfl | rfl | rfl <;> simp [StrItem.ok] <;> decide +kernel
+  · simp [chainOK, StrItem.nextOK, StrItem.render]
+    decide +kernel
+
 /-! ### nesting -/
 
 /-- top-level values read through `PDFStreamParser.nextobject`: everything but a bare `n g R` -/
